@@ -11,13 +11,14 @@ def schema():
     from hpl import types as T
     deep = T.MessageType('Deep', fields={'z': T.FLOAT64})
     inner = T.MessageType('Inner', fields={'n': T.FLOAT64, 't': T.STRINGS, 'deep': deep})
+    other = T.MessageType('Other', fields={'n': T.STRINGS, 'q': T.FLOAT64})
     m = T.MessageType('M', fields={
         'n': T.FLOAT64, 'k': T.INT32, 'b': T.BOOLEANS, 's': T.STRINGS,
         'xs': T.ArrayType('float64[]', subtype=T.FLOAT64), 'fx': T.ArrayType('float64[3]', subtype=T.FLOAT64, length=3),
         'fz': T.ArrayType('float64[0]', subtype=T.FLOAT64, length=0), 'f1': T.ArrayType('float64[1]', subtype=T.FLOAT64, length=1),
-        'm': inner, 'ms': T.ArrayType('Inner[]', subtype=inner), 'mf': T.ArrayType('Inner[2]', subtype=inner, length=2)},
+        'm': inner, 'ms': T.ArrayType('Inner[]', subtype=inner), 'mf': T.ArrayType('Inner[2]', subtype=inner, length=2),
+        'os': T.ArrayType('Other[]', subtype=other)},
         constants={'K': (T.UINT8, 7)})
-    other = T.MessageType('Other', fields={'n': T.STRINGS, 'q': T.FLOAT64})
     return {'t': m, 'u': m, 'w': other}
 
 
